@@ -376,3 +376,24 @@ theorem renderMembers_ne_caret (ms : List Member) (r : Str) : renderMembers ms â
     exact hc heq.1
 
 end BrushVerif.Pattern
+
+namespace BrushVerif.Glob
+open BrushVerif.Wire BrushVerif.Pattern
+
+theorem has_erase (nc fc : Bool) (m : Member) (d : Char) : (eraseMember m).has nc fc d = m.has nc fc d := by
+  cases m <;> simp [eraseMember, eraseSM, Member.has]
+
+theorem memB_erase (nc fc : Bool) (ms : List Member) (d : Char) :
+    memB nc fc (ms.map eraseMember) d = memB nc fc ms d := by
+  simp [memB, List.any_map, Function.comp_def, has_erase]
+
+theorem Matches_erase (nc : Bool) : âˆ€ (p : Pat) (s : Str), Matches nc (eraseEsc p) s â†” Matches nc p s := by
+  intro p
+  induction p with
+  | bracket inv ms => intro s; simp [eraseEsc, Matches, memB_erase]
+  | seq a b iha ihb => intro s; simp [eraseEsc, Matches, iha, ihb]
+  | alt a b iha ihb => intro s; simp [eraseEsc, Matches, iha, ihb]
+  | group k b ih => intro s; cases k <;> simp [eraseEsc, Matches, ih]
+  | _ => intro s; simp [eraseEsc]
+
+end BrushVerif.Glob
